@@ -497,17 +497,33 @@ theorem c19_mtsafe_quiescent {s : State} (h : Reachable s) (hidle : ∀ t, s.pc 
     · rw [hq] at hf; cases hf
 
 /-- **A failed growth under interleaving** (repaired `reusable_storage_mtsafe::alloc`): the thread that holds the block and
-whose `operator new` throws leaves an empty storage with `_busy` clear; heap and live frames (all of them in private
-blocks at that moment) are untouched, and the resulting state is reachable, so all interleaving theorems go on to hold —
-other threads may have allocated private blocks meanwhile and may take the (empty) shared storage afterwards. -/
+whose `operator new` throws first empties the storage (`_ptr = nullptr; _capacity = 0;`, still holding `_busy`, so nobody
+else can touch the fields) and with its next hooked operation clears `_busy`; heap and live frames (all of them in
+private blocks at that moment) are untouched, no frame is created, and both states are reachable states of the machine,
+so `c19_mtsafe_exclusive` / `c19_mtsafe_busy` / `c19_mtsafe_heap_once` hold throughout — other threads may allocate
+private blocks meanwhile and may take the (empty) shared storage afterwards. -/
 theorem c19_mtsafe_failed_growth {s : State} (h : Reachable s) (t fid sz : Nat) (ht : s.pc t = Pc.needNew fid sz) :
-    (step s t Act.fail).2 = Res.failed fid ∧ (step s t Act.fail).1.busy = false ∧ (step s t Act.fail).1.ptr = none ∧
-    (step s t Act.fail).1.cap = 0 ∧ (step s t Act.fail).1.frames = s.frames ∧ (step s t Act.fail).1.heap = s.heap ∧
-    (step s t Act.fail).1.pc t = Pc.idle ∧ Reachable (step s t Act.fail).1 := by
+    (step s t Act.fail).1.ptr = none ∧ (step s t Act.fail).1.cap = 0 ∧ (step s t Act.fail).1.busy = true ∧
+    (step s t Act.fail).1.frames = s.frames ∧ (step s t Act.fail).1.heap = s.heap ∧
+    (step s t Act.fail).1.pc t = Pc.needUnbusy fid ∧ Reachable (step s t Act.fail).1 ∧
+    (step (step s t Act.fail).1 t Act.go).2 = Res.failed fid ∧
+    (step (step s t Act.fail).1 t Act.go).1.busy = false ∧ (step (step s t Act.fail).1 t Act.go).1.ptr = none ∧
+    (step (step s t Act.fail).1 t Act.go).1.cap = 0 ∧ (step (step s t Act.fail).1 t Act.go).1.frames = s.frames ∧
+    (step (step s t Act.fail).1 t Act.go).1.heap = s.heap ∧ (step (step s t Act.fail).1 t Act.go).1.pc t = Pc.idle := by
   have hr : Reachable (step s t Act.fail).1 := by
     obtain ⟨sched, rfl⟩ := h
     exact ⟨sched ++ [(t, Act.fail)], by simp [run, List.foldl_append]⟩
-  refine ⟨?_, ?_, ?_, ?_, ?_, ?_, ?_, hr⟩ <;> simp [step, ht, stepGoFail, setPc]
+  have hb : s.busy = true := (reachable_minv h).busy_iff.mpr (Or.inl ⟨t, by rw [ht]; rfl⟩)
+  have e1 : step s t Act.fail = (setPc { s with ptr := none, cap := 0, dangling := false } t (Pc.needUnbusy fid), Res.paused "store") := by
+    simp [step, ht, stepGoFail]
+  have e2 : step (setPc { s with ptr := none, cap := 0, dangling := false } t (Pc.needUnbusy fid)) t Act.go
+      = (setPc { (setPc { s with ptr := none, cap := 0, dangling := false } t (Pc.needUnbusy fid)) with busy := false } t Pc.idle,
+         Res.failed fid) := by
+    simp [step, stepGo, setPc]
+  rw [e1] at hr ⊢
+  simp only []
+  rw [e2]
+  refine ⟨rfl, rfl, hb, rfl, rfl, by simp [setPc], hr, rfl, rfl, rfl, rfl, rfl, rfl, by simp [setPc]⟩
 
 /-- The pinned code violated the property: `dealloc` compared the frame's address with `me->_ptr`.  Thread 0 grows the
 block (`delete` … `new`); in between thread 1 obtains a private block at the just-freed address and releases it: it is
